@@ -6,7 +6,12 @@ determinism monitor at native speed / with ASan+UBSan).
 extra(): (1) parses the ThreadSanitizer reports of the tsan run, (2) drives the first-touch trials
 (harness/C14_first.cpp, one PROCESS per trial) and parses their reports, (3) measures the 'not driven'
 list (const / static members of the property's classes that the workload never executed) with a gcov
-build, (4) thorough only: one pass of in-process trials under valgrind --tool=helgrind."""
+build, (4) thorough only: one pass of in-process trials under valgrind --tool=helgrind,
+(5) section 'fresh' of C14.cpp, one PROCESS per trial: nothing harmonic is evaluated before the barrier, so the
+first evaluation of every harmonic / gravity / magnetic object in the process is concurrent (the harness never
+calls SphericalEngine::RootTable itself), (6) fresh-process "alone" reference: a sample of the concurrently
+obtained results covering every registered operation is compared bit-for-bit with `C14 --alone ...`, a new
+process that lazily constructs only the object(s) that one call touches and executes only that call."""
 import glob, json, os, re, subprocess, sys, time
 from concurrent.futures import ThreadPoolExecutor
 
@@ -20,7 +25,8 @@ RULE = ("one case = one trial: fresh shared objects (random ellipsoid / projecti
         "on the SAME objects with per-thread deterministic inputs; section 'focus' = every registry class hammered once per tier-defined "
         "thread counts; first-touch trials = one new process per (singleton/static set, T, order); evaluation = one concurrently executed "
         "(operation, inputs) re-executed alone on a second fresh object and compared bit-for-bit; distinct = distinct (object parameters, operation, inputs)")
-ASSUMPTIONS = ["ThreadSanitizer (GCC 12 libtsan) happens-before analysis: a race is seen only if both conflicting accesses were executed in one trial and are still in its shadow history",
+ASSUMPTIONS = ["the fresh-process reference (`C14 --alone`) is the same binary (same flavour) with the same inputs; a sample (every operation >= 1x per run), not every call, is compared across processes",
+               "ThreadSanitizer (GCC 12 libtsan) happens-before analysis: a race is seen only if both conflicting accesses were executed in one trial and are still in its shadow history",
                "libstdc++ is not instrumented: accesses inside libstdc++.so are invisible to TSan (inline/template code is instrumented)",
                "the determinism monitor compares against the same binary run single-threaded on an identically constructed object",
                "the five Intersect counters are excluded exactly (byte ranges annotated as benign); setting VERIF_C14_NO_ANNOTATION=1 shows them"]
@@ -259,6 +265,170 @@ def run_first_touch(res, tier, seed, workdir):
     return out
 
 
+
+# ------------------------------------------------------------------------------------------ fresh-process trials of the harmonic family
+def run_fresh(res, tier, seed, workdir):
+    """section 'fresh' of harness/C14.cpp, ONE trial per process: nothing harmonic is evaluated before the barrier, so the first
+    evaluation of every SphericalHarmonic/1/2, GravityModel, MagneticModel object (and of their Circle() factories) in the
+    process is made by the worker threads concurrently (the static square-root table starts empty in a new process)"""
+    out = {}
+    n = 16 if tier == "quick" else 120
+    for flavour in ("tsan", "o2"):
+        exe = vbuild.harness("harness/C14.cpp", flavour)
+        label = "C14_fresh." + flavour
+        wd = os.path.join(workdir, label)
+        os.makedirs(wd, exist_ok=True)
+        env = dict(os.environ)
+        env.update(driver_san_env())
+        env["TSAN_OPTIONS"] = _TSAN
+        t0 = time.time()
+
+        def one(i):
+            cmd = [exe, "--seed", str(seed), "--tier", tier, "--only", "fresh:%d" % i, "--out", os.path.join(wd, "%d.jsonl" % i)]
+            with open(os.path.join(wd, "%d.err" % i), "wb") as ef:
+                try:
+                    r = subprocess.run(cmd, stdout=subprocess.DEVNULL, stderr=ef, env=env, cwd=wd, timeout=1800)
+                    return i, r.returncode, cmd
+                except subprocess.TimeoutExpired:
+                    return i, "timeout", cmd
+
+        with ThreadPoolExecutor(4) as ex:
+            results = list(ex.map(one, range(n)))
+        crashes = 0
+        for i, rc, cmd in results:
+            if rc != 0:
+                crashes += 1
+                try:
+                    txt = open(os.path.join(wd, "%d.err" % i), errors="replace").read()
+                except OSError:
+                    txt = ""
+                txt = "\n".join(l for l in txt.splitlines() if not l.startswith('{"t"'))
+                if rc == "timeout":
+                    res.inconclusive.append("%s process %d timed out" % (label, i))
+                else:
+                    key = "crash:%s@fresh" % ("signal%d" % -rc if isinstance(rc, int) and rc < 0 else "exit%s" % rc)
+                    _add_front(res, dict(key=key, **{"class": "sanitizer-or-crash"}, run=label, section="fresh", idx=i, seed=seed, flavour=flavour,
+                                         harness="harness/C14.cpp", detail=dict(exit=rc, cmd=" ".join(cmd), report=txt[-3000:])))
+            f = os.path.join(wd, "%d.jsonl" % i)
+            if not os.path.exists(f):
+                continue
+            for line in open(f, errors="replace"):
+                try:
+                    r = json.loads(line)
+                except Exception:
+                    continue
+                if r.get("t") == "viol":
+                    r.update(run=label, flavour=flavour, harness="harness/C14.cpp")
+                    _add_front(res, r)
+                elif r.get("t") == "herr":
+                    res.herrs.append(dict(run=label, **r))
+                elif r.get("t") == "stat":
+                    r["samples"] = []
+                    res.merge_stat(r, label)
+                    for k, c in r.get("violkeys", {}).items():
+                        res.violcounts[k] = max(res.violcounts.get(k, 0), c)
+        nrep, keys, nbugs = 0, {}, 0
+        if flavour == "tsan":
+            nrep, keys, nbugs = harvest(res, [os.path.join(wd, "%d.err" % i) for i in range(n)], label, flavour, "harness/C14.cpp", seed, "fresh")
+        out[flavour] = dict(processes=n, crashed=crashes, tsan_reports=nrep, tsan_keys=keys, tsan_harness_only_reports=nbugs, wall_s=round(time.time() - t0, 1))
+        res.runs.append(dict(run=label, flavour=flavour, processes=n, wall_s=round(time.time() - t0, 1)))
+    return out
+
+
+def driver_san_env():
+    try:
+        import driver
+        return dict(driver.SAN_ENV)
+    except Exception:
+        return {}
+
+
+# ------------------------------------------------------------------------------------------ fresh-process "alone" reference
+def alone_reference(res, tier, seed, workdir):
+    """'each call returns exactly the value it returns when executed alone': a sample of the concurrently obtained results
+    (every registered operation at least once per run: the directed trials emit every operation of their focus class) is
+    compared bit-for-bit with the result of `C14 --alone ...`, a NEW PROCESS that constructs only the object(s) that one call
+    touches and executes only that call.  Catches hidden process-wide state (a static frozen by the first caller, ...)
+    that an in-process reference shares with the trial."""
+    import random
+    out = {}
+    for flavour, per_op, cap in (("o2", 3 if tier == "quick" else 6, 1500 if tier == "quick" else 6000), ("tsan", 1, 300 if tier == "quick" else 600)):
+        exe = vbuild.harness("harness/C14.cpp", flavour)
+        samples = []
+        for d in ("C14." + flavour, "C14_fresh." + flavour):
+            for f in sorted(glob.glob(os.path.join(workdir, d, "*.jsonl"))):
+                for line in open(f, errors="replace"):
+                    if line.startswith('{"t":"alone"'):
+                        try:
+                            samples.append(json.loads(line))
+                        except Exception:
+                            pass
+        rnd = random.Random(seed * 7919 + len(samples))
+        byop = {}
+        for sm in samples:
+            byop.setdefault(sm["op"], []).append(sm)
+        chosen = []
+        for op in sorted(byop):
+            lst = byop[op]
+            rnd.shuffle(lst)
+            seen = set()
+            for sm in lst:
+                c = (sm["section"], sm["idx"])
+                if c in seen:
+                    continue
+                seen.add(c)
+                chosen.append(sm)
+                if len(seen) >= per_op:
+                    break
+        if len(chosen) > cap:
+            # keep one per operation first, then fill up at random
+            first, rest, have = [], [], set()
+            for sm in chosen:
+                (first if sm["op"] not in have else rest).append(sm)
+                have.add(sm["op"])
+            rnd.shuffle(rest)
+            rnd.shuffle(first)
+            chosen = (first + rest)[:cap]
+        wd = os.path.join(workdir, "C14_alone." + flavour)
+        os.makedirs(wd, exist_ok=True)
+        env = dict(os.environ)
+        env["TSAN_OPTIONS"] = _TSAN
+        t0 = time.time()
+
+        def one(sm):
+            cmd = [exe, "--alone", sm["section"], str(sm["idx"]), str(sm["seed"]), sm["op"], str(sm["opseed"]), str(sm["freshdeg"])]
+            try:
+                r = subprocess.run(cmd, stdout=subprocess.PIPE, stderr=subprocess.PIPE, env=env, cwd=wd, timeout=600)
+                return sm, r.returncode, r.stdout.decode("utf-8", "replace").strip(), r.stderr.decode("utf-8", "replace")[-1500:], cmd
+            except subprocess.TimeoutExpired:
+                return sm, "timeout", "", "", cmd
+
+        with ThreadPoolExecutor(8) as ex:
+            results = list(ex.map(one, chosen))
+        nmis, ops_done, keyn = 0, set(), {}
+        for sm, rc, got, err, cmd in results:
+            if rc != 0 or not got:
+                res.inconclusive.append("C14_alone.%s: helper exit %s for %s (%s)" % (flavour, rc, sm["op"], err[-300:]))
+                continue
+            ops_done.add(sm["op"])
+            res.evals += 1
+            if got.splitlines()[-1] != sm["res"]:
+                nmis += 1
+                key = "alone:C14/" + sm["op"]
+                keyn[key] = keyn.get(key, 0) + 1
+                if keyn[key] <= 2:
+                    _add_front(res, dict(key=key, **{"class": "fresh-process-reference"}, run="C14_alone." + flavour, section=sm["section"], idx=sm["idx"],
+                                         seed=sm["seed"], flavour=flavour, harness="harness/C14.cpp",
+                                         detail=dict(op=sm["op"], opseed=sm["opseed"], threads=sm.get("threads"), in_trial=sm["res"], alone_in_fresh_process=got.splitlines()[-1],
+                                                     format="n:exc:fold:hex bits of each output,...:hex of strings", helper=" ".join(cmd))))
+                res.violcounts[key] = max(res.violcounts.get(key, 0), keyn[key])
+        res.classes["alone-reference/" + flavour] = len(results)
+        out[flavour] = dict(samples_emitted=len(samples), compared=len(results), operations_covered=len(ops_done), mismatches=nmis,
+                            mismatch_keys=keyn, wall_s=round(time.time() - t0, 1))
+        res.runs.append(dict(run="C14_alone." + flavour, flavour=flavour, processes=len(results), wall_s=round(time.time() - t0, 1)))
+    return out
+
+
 # ------------------------------------------------------------------------------------------ 'not driven' list (measured with gcov)
 def _nm_members(libpath):
     """out-of-line const member functions + static member functions of the static classes, from nm -C on the library"""
@@ -420,9 +590,14 @@ def extra(res, tier, seed, workdir):
     # (2) first-touch processes
     ft = run_first_touch(res, tier, seed, workdir)
     tsan["first_touch"] = ft
+    # (2b) harmonic family: first evaluation in the process made concurrently (one process per trial)
+    fr = run_fresh(res, tier, seed, workdir)
+    tsan["fresh_harmonic"] = fr
     res.extra["tsan"] = tsan
-    res.extra["tsan_reports_total"] = nrep + ft.get("tsan", {}).get("tsan_reports", 0)
-    res.extra["determinism_mismatches"] = sum(n for k, n in res.violcounts.items() if k.startswith("determinism:"))
+    # (2c) fresh-process "alone" reference for a sample covering every operation
+    res.extra["alone_reference"] = alone_reference(res, tier, seed, workdir)
+    res.extra["tsan_reports_total"] = nrep + ft.get("tsan", {}).get("tsan_reports", 0) + fr.get("tsan", {}).get("tsan_reports", 0)
+    res.extra["determinism_mismatches"] = sum(n for k, n in res.violcounts.items() if k.startswith("determinism:") or k.startswith("alone:"))
     # overlap evidence: move the bulky per-pair counters out of 'events'
     ov = {k: v for k, v in res.events.items() if k.startswith("overlap-")}
     for k in ov:
@@ -461,6 +636,6 @@ def extra(res, tier, seed, workdir):
 
 MANIFEST = dict(
     technique="ThreadSanitizer build of concurrent-trial harness + bit-exact determinism monitor (concurrent result vs. same call alone on a fresh object); one process per first-touch trial; helgrind as second detector (thorough); gcov-measured 'not driven' list",
-    text="Fresh shared objects of every class in the property (all solver/projection/auxiliary-latitude/harmonic/gravity/magnetic/thread-safe-geoid classes and the static UTMUPS/MGRS/DMS/Geohash/GARS/Georef/OSGB functions) are hammered by 2-16 threads with 426 registered const operations (each class through every public constructor / factory whose code path differs) under ThreadSanitizer; the built-in singletons are first-touched concurrently in fresh processes; every concurrently obtained result is compared bit-for-bit with the same call executed alone. Held = no data race report with a GeographicLib frame and no mismatch on the schedules executed.",
+    text="Fresh shared objects of every class in the property (all solver/projection/auxiliary-latitude/harmonic/gravity/magnetic/thread-safe-geoid classes and the static UTMUPS/MGRS/DMS/Geohash/GARS/Georef/OSGB functions) are hammered by 2-16 threads with 426 registered const operations (each class through every public constructor / factory whose code path differs) under ThreadSanitizer; the built-in singletons are first-touched concurrently in fresh processes; every concurrently obtained result is compared bit-for-bit with the same call executed alone on a second fresh object, and a sample covering every operation with the same call executed alone in a NEW PROCESS that constructs only the object it needs (detects hidden process-wide state); the harmonic family is additionally first-evaluated concurrently in fresh processes. Held = no data race report with a GeographicLib frame and no mismatch on the schedules executed.",
     note="Schedules are sampled, not enumerated; TSan sees only executed access pairs (the evidence lists members never driven and per-operation overlap counts); the five documented Intersect counters are excluded by address annotation; libstdc++ internals are not instrumented.",
     design_ref="DESIGN.md#c14")
